@@ -92,7 +92,13 @@ func (sc *Scenario) prelude() func() {
 	sib := jen.NewFile("sibling")
 	for i := range sc.File.Ops {
 		if sc.File.Ops[i].Op == "ImportNames" {
-			recipe.ApplyFileOp(sib, &sc.File.Ops[i])
+			// the same map object, the same paths (so the same size), the sibling's own names for them
+			op := sc.File.Ops[i]
+			op.Map = map[string]string{}
+			for p := range sc.File.Ops[i].Map {
+				op.Map[p] = "zzsibname" + strconv.Itoa(len(op.Map))
+			}
+			recipe.ApplyFileOp(sib, &op)
 			break
 		}
 	}
